@@ -87,7 +87,7 @@ template <class ChannelT, class LayoutT, int NCH_, class Tag>
 struct OrgInterleaved
 {
     static constexpr int NCH = NCH_;
-    static constexpr bool has_nth = true, is_float = is_float_chan<ChannelT>::value, bitunits = false;
+    static constexpr bool has_nth = true, is_float = is_float_chan<ChannelT>::value, bitunits = false, addressable = true;
     using pixel_t = gil::pixel<ChannelT, LayoutT>;
     using view_t = typename gil::type_from_x_iterator<pixel_t*>::view_t;
     static const char* name() { return Tag::name(); }
@@ -107,7 +107,7 @@ template <class ChannelT, int NCH_, class Tag>
 struct OrgPlanar
 {
     static constexpr int NCH = NCH_;
-    static constexpr bool has_nth = true, is_float = is_float_chan<ChannelT>::value, bitunits = false;
+    static constexpr bool has_nth = true, is_float = is_float_chan<ChannelT>::value, bitunits = false, addressable = true;
     using cs_t = typename std::conditional<NCH == 3, gil::rgb_t, gil::rgba_t>::type;
     using view_t = typename gil::view_type<ChannelT, gil::layout<cs_t>, true, false, true>::type;
     static const char* name() { return Tag::name(); }
@@ -146,7 +146,7 @@ template <class BitField, class SizesT, class LayoutT, class Tag>
 struct OrgPacked
 {
     static constexpr int NCH = SizesT::N;
-    static constexpr bool has_nth = false, is_float = false, bitunits = false;
+    static constexpr bool has_nth = false, is_float = false, bitunits = false, addressable = true;
     using pixel_t = typename gil::packed_pixel_type<BitField, typename SizesT::list, LayoutT>::type;
     using view_t = typename gil::type_from_x_iterator<pixel_t*>::view_t;
     static const char* name() { return Tag::name(); }
@@ -167,7 +167,7 @@ template <class SizesT, class LayoutT, class Tag>
 struct OrgBitAligned
 {
     static constexpr int NCH = SizesT::N;
-    static constexpr bool has_nth = false, is_float = false, bitunits = true;
+    static constexpr bool has_nth = false, is_float = false, bitunits = true, addressable = true;
     using image_t = typename gil::bit_aligned_image_type<typename SizesT::list, LayoutT>::type;
     using view_t = typename image_t::view_t;
     static const char* name() { return Tag::name(); }
@@ -186,6 +186,34 @@ struct OrgBitAligned
     }
     static int chan_bits(int c) { return SizesT::size(c); }
     static long chan_bitpos(Geo const& g, long x, long y, int c) { return y * g.rowunits + x * g.pixunits + SizesT::shift(c); }
+};
+
+// Virtual (function-backed) views: the pixel at function coordinate p is computed, nothing is stored. The "raw model"
+// is the function itself evaluated at the model's source coordinate; there are no addresses and no writes.
+struct VirtualFn
+{
+    using const_t = VirtualFn;
+    using value_type = gil::rgb8_pixel_t;
+    using reference = value_type;
+    using const_reference = value_type;
+    using argument_type = gil::point_t;
+    using result_type = reference;
+    static constexpr bool is_mutable = false;
+    static unsigned char ch(std::ptrdiff_t x, std::ptrdiff_t y, int c) { return (unsigned char)(c == 0 ? 10 + x : c == 1 ? 100 + y : 7 * x + 13 * y + 1); }
+    result_type operator()(argument_type const& p) const { return value_type(ch(p.x, p.y, 0), ch(p.x, p.y, 1), ch(p.x, p.y, 2)); }
+};
+struct OrgVirtual
+{
+    static constexpr int NCH = 3;
+    static constexpr bool has_nth = false, is_float = false, bitunits = false, addressable = false;
+    using locator_t = gil::virtual_2d_locator<VirtualFn, false>;
+    using view_t = gil::image_view<locator_t>;
+    static const char* name() { return "virtual_rgb8"; }
+    static Geo geo(long w, long h, int) { Geo g; g.w = w; g.h = h; g.pixunits = 1; g.rowunits = 1; g.bytes = 8; return g; }
+    static view_t make(unsigned char*, Geo const& g) { return view_t(g.w, g.h, locator_t(gil::point_t(0, 0), gil::point_t(1, 1), VirtualFn())); }
+    static int chan_bits(int) { return 8; }
+    static long chan_bitpos(Geo const&, long, long, int) { return -1; }
+    static uint64_t vtag(long x, long y, int c) { return VirtualFn::ch(x, y, c); }
 };
 
 #define VS_TAG(T, s) struct T { static const char* name() { return s; } }
